@@ -8,11 +8,12 @@ package graph
 //@ import ocispec "github.com/opencontainers/image-spec/specs-go/v1"
 //@ import descriptor "oras.land/oras-go/v2/internal/descriptor"
 //@ import content "oras.land/oras-go/v2/content"
+//@ import set "oras.land/oras-go/v2/internal/container/set"
 //@
 //@ pure inPreds(m *Memory, s descriptor.Descriptor, p descriptor.Descriptor) bool = s in m.predecessors && p in m.predecessors[s]
 //@ pure inSuccs(m *Memory, p descriptor.Descriptor, s descriptor.Descriptor) bool = p in m.successors && s in m.successors[p]
 //@
-//@ pure graphRI(m *Memory) bool = m != nil && m.nodes != nil && m.predecessors != nil && m.successors != nil && m.predecessors != m.successors
+//@ pure graphRI(m *Memory) bool = m != nil && m.nodes != nil && m.predecessors != nil && m.successors != nil && m.predecessors != m.successors && alive(m.nodes) && alive(m.predecessors) && alive(m.successors)
 //@      && (forall p descriptor.Descriptor :: (p in m.successors) == (p in m.nodes))
 //@      && (forall p, s descriptor.Descriptor :: p in m.successors ==> (s in m.successors[p]) == inPreds(m, s, p))
 //@      && (forall s, p descriptor.Descriptor :: inPreds(m, s, p) ==> p in m.nodes)
@@ -46,6 +47,7 @@ package graph
 //@   ensures [C07,C09:nodes] forall k descriptor.Descriptor :: (k in m.nodes) == (old(k in m.nodes) && k != n)
 //@   ensures [C07,C09:preds] forall s, p descriptor.Descriptor :: inPreds(m, s, p) == (old(inPreds(m, s, p)) && p != n)
 //@   ensures [C07:node-values] forall k descriptor.Descriptor :: k in m.nodes ==> m.nodes[k] == old(m.nodes[k])
+//@   modifies map[descriptor.Descriptor]ocispec.Descriptor@m.nodes, map[descriptor.Descriptor]set.Set[descriptor.Descriptor]@m.predecessors+m.successors, map[descriptor.Descriptor]unit, elems[ocispec.Descriptor], alloc
 //@
 //@ func NewMemory
 //@   ensures [C07:ri] graphRI(result)
@@ -77,6 +79,7 @@ package graph
 //@   ensures [C07:nodes] result1 == nil ==> (forall k descriptor.Descriptor :: (k in m.nodes) == (old(k in m.nodes) || k == n))
 //@   ensures [C07:preds] result1 == nil ==> (forall s, p descriptor.Descriptor :: inPreds(m, s, p) == (old(inPreds(m, s, p)) || (p == n && succOf(n, s))))
 //@   ensures [C07:node-value] result1 == nil ==> m.nodes[n] == node
+//@   modifies map[descriptor.Descriptor]ocispec.Descriptor@m.nodes, map[descriptor.Descriptor]set.Set[descriptor.Descriptor]@m.predecessors+m.successors, map[descriptor.Descriptor]unit, elems[ocispec.Descriptor], elems[byte], alloc
 //@   ensures [C07:error-unchanged] result1 != nil ==> (forall k descriptor.Descriptor :: (k in m.nodes) == old(k in m.nodes)) && (forall s, p descriptor.Descriptor :: inPreds(m, s, p) == old(inPreds(m, s, p)))
 //@
 //@ ghost predKey(i int) descriptor.Descriptor
